@@ -979,6 +979,15 @@ class EntryGraph:
                 bad.append(n)
         return (not bad, bad)
 
+    def success_needs(self, fact_nodes=(), fact_edges=()):
+        """True iff no success exit STATE is reachable from the entry once the facts are blocked
+        (and at least one success exit exists)."""
+        oks = set(self.ok_exit_sids())
+        if not oks:
+            return False
+        r = self.reach(None, fact_nodes, fact_edges)
+        return not (r & oks)
+
     def path_to(self, node, blocked_nodes=(), blocked_edges=()):
         """a witness path (list of (ctx id, bb)) from entry to node avoiding blocked facts"""
         blocked_nodes = set(blocked_nodes)
